@@ -82,7 +82,8 @@ def gen_history(seed, tier, cache=False, nsteps=(2, 6), multi_out_p=0.25):
         states.append(rs.clone(cur))
         steps.append({"kind": "edit", "desc": desc, "state": len(states) - 1})
     threads = rng.choice([1, 2, 4, 8])
-    return {"states": states, "steps": steps, "req": req, "threads": threads, "seed": seed, "inplace": rng.chance(0.5)}
+    return {"states": states, "steps": steps, "req": req, "threads": threads, "seed": seed, "inplace": rng.chance(0.5),
+            "two_checkouts": bool(cache and rng.chance(0.3))}
 
 
 def resolve_cache(spec, world):
@@ -120,12 +121,26 @@ def exec_history_c01(bindir, hist, check_noop=False, c03=False):
         spec = resolve_cache(hist["states"][0], w)
         w.write(spec)
         seq = [{"kind": "initial", "desc": "initial build", "state": 0}] + hist["steps"]
+        two = bool(hist.get("two_checkouts")) and not c03
+        repo2 = w.sc.path("checkout2")
+        prev2 = None
         for i, step in enumerate(seq):
             if i > 0:
                 spec = apply_step(w, hist, step)
+            here = w.repo
+            if two:
+                # a second checkout of the same tree at another root shares the cache directory; builds
+                # alternate between the two checkouts
+                os.makedirs(repo2, exist_ok=True)
+                if step["kind"] == "rm-plz-out":
+                    shutil.rmtree(os.path.join(repo2, "plz-out"), ignore_errors=True)
+                prev2 = rs.materialise(spec, repo2, w.log, prev2, inplace=w.inplace)
+                if i % 2 == 1:
+                    here = repo2
+                    w.stats["builds_in_second_checkout"] = w.stats.get("builds_in_second_checkout", 0) + 1
             labs = request_closure(spec, hist["req"])
             clean = w.clean_build(spec, hist["req"], all_labels=labs if c03 else None)
-            res, log = w.plz(args, subseed(hist["seed"], "inv%d" % i))
+            res, log = w.plz(args, subseed(hist["seed"], "inv%d" % i), cwd=here)
             if res.exit == simlib.EXIT_HANG:
                 out.append(("hang", "incremental build did not terminate: %s" % res.sim_fail, i))
                 break
@@ -133,7 +148,7 @@ def exec_history_c01(bindir, hist, check_noop=False, c03=False):
                 out.append(("exit-mismatch", "step %d (%s): incremental build exited %d, clean build of the same tree exited %d; incremental stderr: %s; clean stderr: %s" % (i, step["desc"], res.exit, clean["exit"], res.stderr[-500:], clean["stderr"][-500:]), i))
                 break
             if res.exit == 0 and not c03:
-                diffs, kinds = w.compare_outputs(clean)
+                diffs, kinds = w.compare_outputs(clean, root=here)
                 if diffs:
                     cls = "stale-output"
                     if kinds == {"execbit"}:
